@@ -626,17 +626,24 @@ def rule_extractor_gate(ctx: Ctx, rep: Report) -> None:
     fi = ctx.func(f"{P}.extract_tx")
     g = ctx.cfg(fi)
     gates = []
-    for t, pol, node in ctx.refusals(fi):
-        txt = str(norm(t))
-        if "final_script_sig" in txt and "final_script_witness" in txt:
-            gates.append((t, node))
-    rep.ob(rule, "extract_tx:gate", bool(gates), fi.where(), "an input with neither final field is refused" if gates else
+    for r in own_nodes(fi.node):
+        if isinstance(r, ast.Raise) and r.exc is not None:
+            facts = g.facts_at_ast(r.exc)
+            absent = {str(t) for t, pol in facts if not pol} | {str(t).replace(" is None", "") for t, pol in facts if pol and str(t).endswith(" is None")}
+            if any(a.endswith(".final_script_sig") for a in absent) and any(a.endswith(".final_script_witness") for a in absent):
+                gates.append((r, facts))
+    rep.ob(rule, "extract_tx:gate", bool(gates), fi.where(gates[0][0] if gates else None), "an input with neither final field is refused" if gates else
            "extract_tx has no refusal of an input with neither final_script_sig nor final_script_witness: an unfinalized psbt is extracted")
     if gates:
-        t, node = gates[0]
-        under = [str(x) for x, pol in g.facts_at_ast(t) if "check_validity" in str(x)]
-        rep.ob(rule, "extract_tx:unconditional", not under, fi.where(t), "the gate does not depend on check_validity" if not under else f"the gate is under {under}: with check_validity=False an unfinalized psbt is extracted")
-    rep.floor(rule, 2)
+        r, facts = gates[0]
+        under = [str(x) for x, pol in facts if "check_validity" in str(x)]
+        rep.ob(rule, "extract_tx:unconditional", not under, fi.where(r), "the gate does not depend on check_validity" if not under else f"the gate is under {under}: with check_validity=False an unfinalized psbt is extracted")
+        # and it comes before the answer: no return is reached without passing the loop that holds it
+        loop = parent(parent(r))
+        rets = [x for x in own_nodes(fi.node) if isinstance(x, ast.Return)]
+        okb = isinstance(loop, (ast.For, ast.While)) and all(x.lineno > loop.lineno for x in rets) or all(x.lineno > r.lineno for x in rets)
+        rep.ob(rule, "extract_tx:before_answer", okb, fi.where(r), "every return comes after the gate")
+    rep.floor(rule, 3)
 
 
 RULES = [
